@@ -383,10 +383,20 @@ class TimeTriggeredPlanValidator(engines.engine.Engine, mixins.PlanValidatorMixi
                 changes = self._apply_effect(state, se, ai, eff, updates, problem)
                 for f, v in changes.items():
                     if f in assigned or (f in updates and eff.is_assignment()):
-                        if f.type.is_bool_type() and assigned[f] == ai:
-                            # Handle "delete before add" semantics
-                            if v.bool_constant_value():
-                                updates[f] = v
+                        if (
+                            eff.is_assignment()
+                            and f in assigned
+                            and assigned[f] == ai
+                        ):
+                            # Two assignments of the same action instance
+                            if f.type.is_bool_type():
+                                # Handle "delete before add" semantics
+                                if v.bool_constant_value():
+                                    updates[f] = v
+                            elif v.constant_value() != updates[f].constant_value():
+                                # as in the UPSequentialSimulator, only 2
+                                # different values are conflicting
+                                raise UPConflictingEffectsException("Double effect")
                         else:
                             raise UPConflictingEffectsException("Double effect")
                     else:
